@@ -158,6 +158,7 @@ def run_gen(case, R):
     if m['mesh_mode'] == 'infile':
         exp_secs = [k for k in canon_secs if k not in in_main_xp]     # sections held only in the companion file are not listed
         R.check(e2['sections'] == exp_secs, 'reread:section-order', 'sections %r expected %r' % (e2['sections'], exp_secs))
+    if case.get('legs') == 2: return        # C02's boundary-value files: judged up to here
     # ------------------------------------------------------------------ leg 3: stability chain
     f2, f3 = os.path.join(tmp, 'two', 'model.dat'), os.path.join(tmp, 'three', 'model.dat')
     os.makedirs(os.path.dirname(f2)); os.makedirs(os.path.dirname(f3))
